@@ -234,8 +234,5 @@ fn refuse(requested: usize, held: isize) -> ! {
         }
         s
     };
-    // hand the results of the block so far to the parent, then report the refusal and leave
-    crate::c08::flush_partial(idx);
-    println!("A {idx} {requested} {held} {site}");
-    unsafe { libc::_exit(REFUSE_EXIT) }
+    crate::c08::on_refusal(idx, requested, held, &site)
 }
